@@ -21,11 +21,17 @@ def _gen_parse(rng, tier, variant):
     criteria incl. overlapping ranges, abstract and concrete dead ends, grandchildren on a decoded field, nested
     container references, all parameter kinds) x packets steering into every branch, dead end and ambiguity; the APID
     parameter is not always called PKT_APID"""
-    from contracts._defgen import gen_definition, gen_packet
+    from contracts._defgen import gen_definition, gen_packet, exact_packet, build_definition
+    import warnings
+    warnings.simplefilter('ignore')
     for _ in range(60 if tier == 'quick' else 800):
         d = gen_definition(rng)
         for _ in range(12):
             yield {'def': d, 'pkt': gen_packet(rng, d).hex()}
+        # packets cut to the consumed length (zero-width trailing entries, nothing left after the last field)
+        defn = build_definition(d)
+        for _ in range(6):
+            yield {'def': d, 'pkt': exact_packet(rng, d, defn).hex()}
 
 
 def _build_parse(r):
@@ -49,13 +55,21 @@ def _gen_stream(rng, tier, variant):
     import itertools
     from contracts._defgen import gen_definition, gen_packet
     # (a) plain streams
+    from contracts._defgen import exact_packet, build_definition
+    import warnings
+    warnings.simplefilter('ignore')
     for _ in range(40 if tier == 'quick' else 500):
         d = gen_definition(rng)
+        defn = build_definition(d)
         n = rng.randint(1, 8)
         pk = []
         for _ in range(n):
             bl = rng.choice([None, None, None, rng.randint(1, 6), 60])
-            pk.append(gen_packet(rng, d, body_len=bl).hex())
+            if rng.random() < 0.5:
+                # exactly consumed, or 1..7 bits left over when the consumed width is not a whole number of bytes
+                pk.append(exact_packet(rng, d, defn).hex())
+            else:
+                pk.append(gen_packet(rng, d, body_len=bl).hex())
         yield {'def': d, 'pkts': pk, 'opts': {'parse_bad_pkts': rng.choice([True, False]),
                                               'yield_unrecognized_packet_errors': rng.choice([True, False]),
                                               'ccsds_headers_only': rng.random() < 0.15}}
